@@ -166,6 +166,8 @@ def check_args(case):
             t = dict((c, t[i % len(t)]) for i, c in enumerate(chips))
         methods = None if case["methods"] is None else \
             c01._methods(case["methods"])
+        if methods is not None and case["seed"] % 2:
+            methods = list(methods)     # the form the wrapper's docs show
         with unchanged("minimise_tables", tables, t, methods):
             with sut("minimise_tables", documented):
                 if methods is None:
